@@ -98,13 +98,31 @@ mpz_class bv_unsigned(const mpz_class &v, unsigned w) {
   return r;
 }
 
-// BV profile: a linear constraint is only judged when no evaluation order and
-// no reading (modular or mathematical, signed) can disagree: the sum of the
-// absolute values of all terms and of the constant stays inside the signed
-// range of the (common) width of its variables
-static bool bv_cst_unambiguous(const Frame &f, const lin_cst_t &c) {
-  mpz_class acc = abs(to_mpz(c.expression().constant()));
-  unsigned w = 0;
+// BV profile: the meaning of a linear constraint over machine integers. crab does
+// not define it beyond "wrapint is interpreted as a signed mathematical integer"
+// (wrapped_interval_domain.hpp), so a constraint is only judged in a state where
+// every sensible reading gives the same truth value:
+//  (a) one variable with coefficient +-1 (a bound or a (dis)equality with a constant):
+//      judged when the constant on the other side fits the signed range of the width;
+//  (b) otherwise: the mathematical reading (signed values, no wrap-around) and the
+//      modular reading (the expression reduced modulo 2^w, compared as a signed
+//      number with 0) must agree.
+// Returns false when the constraint is ambiguous in this state.
+static bool truth_of(lin_cst_t::kind_t k, const mpz_class &v) {
+  switch (k) {
+  case lin_cst_t::EQUALITY:
+    return v == 0;
+  case lin_cst_t::DISEQUATION:
+    return v != 0;
+  case lin_cst_t::INEQUALITY:
+    return v <= 0;
+  default:
+    return v < 0;
+  }
+}
+static bool bv_cst_unambiguous(const Frame &f, const lin_cst_t &c, bool strict) {
+  unsigned w = 0, nterms = 0;
+  mpz_class total = to_mpz(c.expression().constant()), only_coef;
   for (auto it = c.expression().begin(), et = c.expression().end(); it != et; ++it) {
     auto comp = *it;
     auto ty = comp.second.get_type();
@@ -118,13 +136,37 @@ static bool bv_cst_unambiguous(const Frame &f, const lin_cst_t &c) {
     const Value *v = f.st.get(comp.second);
     if (!v || v->k != Value::INT)
       return false;
-    acc += abs(to_mpz(comp.first) * v->i);
+    total += to_mpz(comp.first) * v->i;
+    only_coef = to_mpz(comp.first);
+    nterms++;
   }
   if (w == 0)
     return true; // constant constraint
   mpz_class lim;
   mpz_ui_pow_ui(lim.get_mpz_t(), 2, w - 1);
-  return acc < lim;
+  if (nterms == 1 && (only_coef == 1 || only_coef == -1)) {
+    mpz_class bound = -to_mpz(c.expression().constant()) * only_coef; // x (op) bound
+    return bound >= -lim && bound < lim;
+  }
+  // crab reduces every constant modulo 2^w when it builds wrapped intervals: a
+  // constraint with a coefficient or a constant outside the signed range has no
+  // agreed meaning
+  // (terms move from one side to the other, so the negation must fit as well)
+  mpz_class k0 = to_mpz(c.expression().constant());
+  if (abs(k0) >= lim)
+    return false;
+  for (auto it = c.expression().begin(), et = c.expression().end(); it != et; ++it)
+    if (abs(to_mpz((*it).first)) >= lim)
+      return false;
+  if (strict) {
+    // neutraliser of KF61: no sub-sum of the constraint can wrap around
+    mpz_class acc = abs(k0);
+    for (auto it = c.expression().begin(), et = c.expression().end(); it != et; ++it)
+      acc += abs(to_mpz((*it).first) * f.st.get((*it).second)->i);
+    if (acc >= lim)
+      return false;
+  }
+  return truth_of(c.kind(), total) == truth_of(c.kind(), bv_wrap(total, w));
 }
 
 bool Machine::eval_lin_exp(const Frame &f, const lin_exp_t &e, mpz_class &out) {
@@ -148,7 +190,7 @@ bool Machine::eval_lin_exp(const Frame &f, const lin_exp_t &e, mpz_class &out) {
 
 int Machine::eval_lin_cst(const Frame &f, const lin_cst_t &c) {
   mpz_class v;
-  if (cfg.bv && !bv_cst_unambiguous(f, c))
+  if (cfg.bv && !bv_cst_unambiguous(f, c, cfg.bv_strict))
     return -1;
   if (!eval_lin_exp(f, c.expression(), v))
     return -1;
